@@ -398,3 +398,26 @@ def oracle_c19(world):
         if e.get('iid') not in known:
             V('unattributable_dispatch', 'route handler %s/%s ran for an unknown request' % (e['type'], e['route']), e['seq'])
     return out
+
+
+def oracle_c08_routing(world):
+    """C08 through the routing handler: a fire-and-forget responder emits nothing on that stream and a metadata-push is
+    never answered - also when the routed request is refused (no route, no or rejected authentication)."""
+    out = []
+    V = lambda cls, msg, seq=None, **f: out.append(Violation('C08', 'C08.' + cls, msg, seq, **f))
+    plan = world.plan
+    h = world.history
+    mark = next((e['seq'] for e in h if e['k'] == 'mark'), float('inf'))
+    fnf_sids = {}
+    for e in h:
+        if e['k'] == 'wire' and e['dir'] == 'c2s' and e['f']['type'] == 'REQUEST_FNF' and e['seq'] < mark:
+            fnf_sids.setdefault(e['f']['sid'], e['seq'])
+    for e in h:
+        if e['k'] != 'wire' or e['dir'] != 's2c' or e['seq'] > mark:
+            continue
+        f = e['f']
+        if f['sid'] in fnf_sids and e['seq'] > fnf_sids[f['sid']]:
+            V('type_not_allowed', '%s from the responder on stream %d, which is a fire-and-forget' % (f['type'], f['sid']), e['seq'],
+              type=f['type'], kind='fnf', role='responder', routed=True, auth_configured=bool(plan.get('auth')))
+            break
+    return out
